@@ -304,22 +304,67 @@ def h_guards(creator: int, caller: int, code: int, ended: bool, second: bool) ->
 
 
 class _Stderr:
+    """a standard stream of the child; `fl` chooses how flushing it fails at exit: the buffered data cannot be written (reader gone,
+    device full), the stream has no flush / is None (detached), flushing is not implemented, or the program closed the stream"""
+
+    def __init__(self, fl=0):
+        self.fl = fl
+
     def write(self, s):
         pass
 
     def flush(self):
+        fl = self.fl
+        if fl == 1:
+            raise OSError(28, 'No space left on device')
+        if fl == 2:
+            raise BrokenPipeError(32, 'Broken pipe')
+        if fl == 3:
+            raise AttributeError('flush')
+        if fl == 4:
+            raise NotImplementedError()
+        if fl == 5:
+            raise ValueError('I/O operation on closed file.')
+
+
+class _ChildExit(BaseException):
+    def __init__(self, code):
+        self.code = code
+
+
+class _ChildOS:
+    def __init__(self, real):
+        self._real = real
+
+    def __getattr__(self, name):
+        return getattr(self._real, name)
+
+    def pipe(self):
+        return (70, 71)
+
+    def fork(self):
+        return 0
+
+    def close(self, fd):
         pass
 
+    def _exit(self, code):
+        raise _ChildExit(code)
 
-def h_bootstrap(path: int, x: int) -> bool:
+
+def h_bootstrap(path: int, x: int, fl: int, which: int) -> bool:
     """
-    pre: 0 <= path <= 3 and -3 <= x <= 300
+    pre: 0 <= path <= 3 and -3 <= x <= 300 and 0 <= fl <= 5 and 0 <= which <= 3 and (fl == 0) == (which == 0) and (fl == 0 or x <= 3)
     post: _
     """
     import billiard.util as bu
+    import billiard.popen_fork as pf
+    saved_pf_os = pf.os
     saved = (bproc._current_process, bproc._children, bproc._process_counter, sys.stdin, sys.stderr,
-             bu._exit_function, bu._run_after_forkers, bu.info, bu.error)
+             bu._exit_function, bu._run_after_forkers, bu.info, bu.error, sys.stdout)
     path = realize(path)
+    fl = realize(fl)
+    which = realize(which)
     ran = []
 
     def target():
@@ -332,21 +377,31 @@ def h_bootstrap(path: int, x: int) -> bool:
             raise KeyboardInterrupt()
     try:
         sys.stdin = None
-        sys.stderr = _Stderr()
+        sys.stderr = _Stderr(fl if which & 2 else 0)
+        sys.stdout = _Stderr(fl if which & 1 else 0)
+        if fl == 3 and which & 1:
+            sys.stdout = None
         bu._exit_function = lambda *a, **k: None
         bu._run_after_forkers = lambda: None
         bu.info = lambda *a, **k: None
         bu.error = lambda *a, **k: True
         P = type('P', (bproc.BaseProcess,), {'_start_method': None})
         p = P(target=target)
-        code = p._bootstrap()
+        # the child branch of the real popen_fork.Popen._launch: fork() returns 0, os._exit(code) ends the "child"
+        pf.os = _ChildOS(saved_pf_os)
+        try:
+            pf.Popen._launch(pf.Popen.__new__(pf.Popen), p)
+            return fail('C19:bootstrap:child-returned-from-launch')
+        except _ChildExit as e:
+            code = e.code
     finally:
+        pf.os = saved_pf_os
         (bproc._current_process, bproc._children, bproc._process_counter, sys.stdin, sys.stderr,
-         bu._exit_function, bu._run_after_forkers, bu.info, bu.error) = saved
+         bu._exit_function, bu._run_after_forkers, bu.info, bu.error, sys.stdout) = saved
     if ran != [1]:
         return fail('C19:bootstrap:target-not-run-exactly-once')
     if path == 0 and code != 0:
-        return fail('C19:bootstrap:normal-return-not-0')
+        return fail('C19:bootstrap:normal-return-not-0' + (':unflushable-stream' if fl and which else ''))
     if path in (1, 3) and code != 1:
         return fail('C19:bootstrap:exception-not-1')
     if path == 2:
